@@ -5,10 +5,10 @@ from .prop_C03 import REPLICA_TRUST
 PROP = Property(
     "C07", ["HsVerif.Props.C07", "HsVerif.Props.C07Commit", "HsVerif.Props.C07Signal"], [ReplicaFam("c07")],
     facts=[
-        {"func": "protocol/synchronizer/synchronizer.go:Synchronizer.advanceView", "order": ["VerifySyncInfo", "UpdateHighQC", "View", "NextView", "AddEvent", "GetLeader"]},
+        {"func": "protocol/synchronizer/synchronizer.go:Synchronizer.advanceView", "order": ["VerifySyncInfo", "UpdateHighQC", "View", "EnterViewAfter", "AddEvent", "GetLeader"]},
         {"func": "protocol/synchronizer/timeoutrule_simple.go:Simple.VerifySyncInfo", "order": ["TC", "VerifyTimeoutCert", "QC", "VerifyQuorumCert"]},
         {"func": "protocol/synchronizer/timeoutrule_aggregate.go:Aggregate.VerifySyncInfo", "order": ["TC", "VerifyTimeoutCert", "AggQC", "Sig", "VerifyAggregateQC"]},
-        {"func": "protocol/viewstates.go:ViewStates.NextView", "order": ["Lock", "defer Unlock"]},
+        {"func": "protocol/viewstates.go:ViewStates.EnterViewAfter", "order": ["Lock", "defer Unlock"]},
         {"func": "protocol/viewstates.go:ViewStates.UpdateHighQC", "contains": ["Get", "View"]},
     ],
     trusted=REPLICA_TRUST,
@@ -17,7 +17,7 @@ PROP = Property(
 )
 
 META = {
-    "text": "Proof: over the replica model and every sequence of delivered events: view_advances_by_one (the view starts at 1 and changes only by +1; the k-th advancement leaves view k), advance_on_evidence (each advancement was backed by a QC, TC or aggregate QC of a view >= the view left that passed the replica's verifier) and evidence_is_quorum (via C02: a quorum of distinct configured replicas really signed a block of that view, timeouts for that view, or their own timeout messages for that view); both timeout rules, all rulesets. highqc_view_monotone / highqc_view_monotone_run (the view of the high QC never decreases, along every event sequence; uses the store invariant 'block maps only grow, genesis stays stored', proved for every handler). committed_view_never_decreases (Props/C07Commit: between any two points of any run from the initial state the view of the committed block does not decrease; also across any adversary action in the system of replica models) — by a Hoare-logic chain through all handlers saying that the committer only ever moves to a block above the one committed before the call. hightc_view_never_decreases (Props/C07Signal; no side condition, also across any adversary action at the system level). View-change signalling (Props/C07Signal): step_signal — in one step the views signalled plus those still queued are what was queued before followed by exactly s.view+1, …, s'.view; signalled_run / signalled_sys — along any run from the initial state (internal ViewChangeEvents may not be injected from outside: signal_counterexample) the views signalled so far followed by those still queued are exactly 2, 3, …, view: none skipped, none twice, in order (no_view_change_skipped, signalled_nodup, signalled_increasing). The oracle checks the same on every implementation trace, together with ground-truth evidence for every advancement. Tie: same replica harness as C03, with forged / relabelled (including genesis-hash) / stale / replayed / signature-less certificates in proposals, new-view and timeout messages.",
+    "text": "Proof: over the replica model and every sequence of delivered events: view_advances_by_one (name historical: since repair a284fef an advancement leaves its view for the view AFTER THE CERTIFICATE; the advancement records form a chain from view 1 to the current view — each starts where the previous one ended and ends strictly higher; current_view_is_last_entered), advance_on_evidence (each advancement was backed by a QC, TC or aggregate QC of a view >= the view left that passed the replica's verifier) and evidence_is_quorum (via C02: a quorum of distinct configured replicas really signed a block of that view, timeouts for that view, or their own timeout messages for that view); both timeout rules, all rulesets. highqc_view_monotone / highqc_view_monotone_run (the view of the high QC never decreases, along every event sequence; uses the store invariant 'block maps only grow, genesis stays stored', proved for every handler). committed_view_never_decreases (Props/C07Commit: between any two points of any run from the initial state the view of the committed block does not decrease; also across any adversary action in the system of replica models) — by a Hoare-logic chain through all handlers saying that the committer only ever moves to a block above the one committed before the call. hightc_view_never_decreases (Props/C07Signal; no side condition, also across any adversary action at the system level). View-change signalling (Props/C07Signal): step_signal — in one step the views signalled plus those still queued are what was queued before followed by exactly the views ENTERED in this step (entered: certified view + 1 of every advancement record; Climb / climb_facts: strictly increasing, above the old view, the last one is the new view, none iff the view did not change); signalled_run / signalled_sys — along any run from the initial state (internal ViewChangeEvents may not be injected from outside: signal_counterexample) the views signalled so far followed by those still queued are exactly the entered views: every entered view once, in order, the current view last (no_view_change_skipped, signalled_nodup, signalled_increasing); views jumped over on a certificate of a later view are not entered and not signalled. The oracle checks the same on every implementation trace, together with ground-truth evidence for every advancement. Tie: same replica harness as C03, with forged / relabelled (including genesis-hash) / stale / replayed / signature-less certificates in proposals, new-view and timeout messages.",
     "note": "Trusted: as C03. A genuine defect found by this check (a genesis-hash QC with an arbitrary claimed view moved the view without any signature) is fixed by 'fix: a QC for the genesis block is valid only with the genesis view'.",
     "technique": "Lean 4 invariant proof (Std.Do/mvcgen) + C02 soundness + differential correspondence with a real replica + ground-truth evidence oracle",
 }
